@@ -241,6 +241,8 @@ func runC06(ctx *Ctx) {
 func runC07(ctx *Ctx) {
 	pc := newPipeCorr()
 	defer pc.run(ctx)
+	corrDF := newCorr("docfilters")
+	defer corrDF.run(ctx)
 	ctx.Rep.Rule = "pages with nested ul/ol/li/blockquote/pre to depth 5, partially retained lists, content only in inner lists, media and data tables inside lists and quotes; distinct by structure; non-trivial = a retained word with chain length >= 2 and a list with both kept and dropped items"
 	contentRun{id: "C07", n: [2]int{500, 20000}, url: pageURL,
 		corr:    func(ctx *Ctx, x *distilled, replay interface{}) { pc.add(ctx, x.D, x.Root, true, replay) },
